@@ -23,7 +23,10 @@ EXTENDS Naturals, Sequences, FiniteSets, TLC, Json, IOUtils
 CONSTANTS MaxN,        \* enumeration bound on the number of nodes
           Source,      \* "enum" | "file"
           Modes,       \* subset of {"walk", "walkabout"} for the enumeration
-          Histories    \* subset of {"fresh", "rewalk"}
+          Histories,   \* subset of {"fresh", "rewalk", "lateadd"}
+          NestedMaxPruned, \* with an inner traversal: at most that many nodes of the outer tree raise a pruning exception
+          Nestings     \* {"none"} | {"nested"}: does a visit_* / depart_* method of the main visitor start a traversal of its own
+                       \* (of a detached one-node tree, node n + 1) with the SAME visitor object - a re-entrant walk
 
 \* "DepartSkipSiblings": visit_* returns normally, depart_* raises SkipSiblings (only meaningful in walkabout)
 \* "DepartError": visit_* returns normally, depart_* raises a genuine error (not a pruning exception): it must reach the caller
@@ -40,8 +43,14 @@ RegOrder == <<"B", "B2", "A", "I", "O">>    \* registration order inside one `wh
 \* configurations recorded from the real code: [n, parent (seq), prune (seq), exts (seq), mode]
 FileCfgs == IF Source = "file" THEN JsonDeserialize(IOEnv.CFG_FILE) ELSE <<>>
 
-VARIABLES cid, n, parent, prune, exts, mode, hist, stack, exc, events, status
-vars == <<cid, n, parent, prune, exts, mode, hist, stack, exc, events, status>>
+VARIABLES cid, n, parent, prune, exts, mode, hist, nest, stack, exc, events, status
+vars == <<cid, n, parent, prune, exts, mode, hist, nest, stack, exc, events, status>>
+
+\* nest = [at: the node whose visit_* / depart_* method starts the inner traversal (0: none), when: "visit" | "depart",
+\*         how: "walk" | "walkabout", prune: what visit_* raises for the detached root]
+NoNest == [at |-> 0, when |-> "visit", how |-> "walk", prune |-> "none"]
+NestedPrunes == {"none", "SkipChildren", "SkipSiblings", "SkipNode", "SkipDeparture"}
+PruneOf(x) == IF x = n + 1 THEN nest.prune ELSE prune[x]
 
 Sel(t) == SelectSeq(RegOrder, LAMBDA e : e \in exts /\ When(e) = t)
 PreV  == Sel("BEFORE") \o Sel("OUTTER")     \* Visitor.visit : before_visit + outter_visit
@@ -51,7 +60,9 @@ PostD == Sel("AFTER")  \o Sel("OUTTER")     \* Visitor.depart: after_visit + out
 
 Kids(p) == SelectSeq([i \in 1..n |-> i], LAMBDA i : i > 1 /\ parent[i] = p)
 
-Frame(node) == [node |-> node, ph |-> "Vpre", k |-> 1, callDepart |-> TRUE, skipNode |-> FALSE, pruning |-> "none"]
+\* mode: the traversal this frame belongs to is a walk or a walkabout; nroot: the frame is the root of an inner traversal
+Frame(node, md, nr) == [node |-> node, ph |-> "Vpre", k |-> 1, callDepart |-> TRUE, skipNode |-> FALSE, pruning |-> "none",
+                        mode |-> md, nroot |-> nr]
 
 InitEnum == /\ Source = "enum" /\ cid = 0
             /\ n \in 1..MaxN
@@ -67,7 +78,16 @@ InitEnum == /\ Source = "enum" /\ cid = 0
             \* while it had no extension at all, and the extensions were added afterwards (ExtList.add).  The contract
             \* speaks of the extensions registered NOW: nothing below depends on hist (frame condition).
             /\ hist \in Histories
-            /\ (hist = "rewalk" => \A i \in 1..n : prune[i] \notin SpecialDepartures)   \* special departures: fresh visitors only
+            \* "lateadd": the visitor was created with an EMPTY extension list, to which the caller added the extensions afterwards
+            \* through its own reference to that list (no walk in between)
+            /\ (hist # "fresh" => \A i \in 1..n : prune[i] \notin SpecialDepartures)   \* special departures: fresh visitors only
+            /\ nest \in (IF "nested" \in Nestings
+                           THEN [at : 1..n, when : {"visit", "depart"}, how : {"walk", "walkabout"}, prune : NestedPrunes]
+                           ELSE {NoNest})
+            /\ (nest.at # 0 => /\ hist = "fresh" /\ \A i \in 1..n : prune[i] \notin SpecialDepartures
+                               /\ (nest.when = "depart" => mode = "walkabout")
+                               /\ Cardinality({i \in 1..n : prune[i] # "none"}) <= NestedMaxPruned
+                               /\ exts \in {{}, {"B", "A"}, {"I", "O"}, {"B", "A", "I", "O"}})
 InitFile == /\ Source = "file"
             /\ cid \in 1..Len(FileCfgs)
             /\ n = FileCfgs[cid].n
@@ -76,8 +96,9 @@ InitFile == /\ Source = "file"
             /\ exts = {FileCfgs[cid].exts[i] : i \in 1..Len(FileCfgs[cid].exts)}
             /\ mode = FileCfgs[cid].mode
             /\ hist = "fresh"
+            /\ nest = NoNest
 Init == /\ (InitEnum \/ InitFile)
-        /\ stack = <<Frame(1)>>
+        /\ stack = <<Frame(1, mode, FALSE)>>
         /\ exc = "none"
         /\ events = <<>>
         /\ status = "running"
@@ -95,16 +116,21 @@ VisitPre == /\ Running /\ Top.ph = "Vpre"
                  ELSE UNCHANGED events /\ SetTop([Top EXCEPT !.ph = "Vmain"])
             /\ UNCHANGED <<exc, status>>
 \* super().visit(ob) : the main visitor's visit_*; a pruning exception is remembered, not raised yet
+\* (when this is the node whose visit_* starts an inner traversal, that traversal runs to its end first: a frame is pushed,
+\*  and visit_* goes on - raises its own pruning exception - when the inner root has returned)
 VisitMain == /\ Running /\ Top.ph = "Vmain"
              /\ Emit("main", "visit", Top.node)
-             /\ SetTop([Top EXCEPT !.ph = "Vpost", !.k = 1, !.pruning = VisitPrune(prune[Top.node])])
+             /\ LET cont == [Top EXCEPT !.ph = "Vpost", !.k = 1, !.pruning = VisitPrune(PruneOf(Top.node))] IN
+                  IF nest.at = Top.node /\ nest.when = "visit"
+                    THEN stack' = Append([stack EXCEPT ![Len(stack)] = cont], Frame(n + 1, nest.how, TRUE))
+                    ELSE SetTop(cont)
              /\ UNCHANGED <<exc, status>>
 VisitPostExt == /\ Running /\ Top.ph = "Vpost" /\ Top.k <= Len(PostV)
                 /\ Emit(PostV[Top.k], "visit", Top.node) /\ SetTop([Top EXCEPT !.k = @ + 1])
                 /\ UNCHANGED <<exc, status>>
 
 \* "if pruning: raise pruning" (visitor.py:150) and the handlers of walkabout (visitor.py:177-195)
-RaiseAbout == /\ Running /\ mode = "walkabout" /\ Top.ph = "Vpost" /\ Top.k > Len(PostV)
+RaiseAbout == /\ Running /\ Top.mode = "walkabout" /\ Top.ph = "Vpost" /\ Top.k > Len(PostV)
               /\ UNCHANGED <<events, status>>
               /\ CASE Top.pruning = "none"          -> SetTop([Top EXCEPT !.ph = "Kids", !.k = 1]) /\ UNCHANGED exc
                    [] Top.pruning = "SkipNode"      -> SetTop([Top EXCEPT !.ph = "Dpre", !.k = 1, !.skipNode = TRUE, !.callDepart = FALSE]) /\ UNCHANGED exc
@@ -114,7 +140,7 @@ RaiseAbout == /\ Running /\ mode = "walkabout" /\ Top.ph = "Vpost" /\ Top.k > Le
                    \* are processed as usual, and it is re-raised after depart() (see DepartPost)
                    [] Top.pruning = "SkipSiblings"  -> SetTop([Top EXCEPT !.ph = "Kids", !.k = 1]) /\ UNCHANGED exc
 \* handlers of walk (visitor.py:119-130): no departures
-RaiseWalk == /\ Running /\ mode = "walk" /\ Top.ph = "Vpost" /\ Top.k > Len(PostV)
+RaiseWalk == /\ Running /\ Top.mode = "walk" /\ Top.ph = "Vpost" /\ Top.k > Len(PostV)
              /\ UNCHANGED <<events, status>>
              /\ CASE Top.pruning \in {"none", "SkipDeparture"}   -> SetTop([Top EXCEPT !.ph = "Kids", !.k = 1]) /\ UNCHANGED exc
                   [] Top.pruning \in {"SkipChildren", "SkipNode"} -> Pop /\ UNCHANGED exc
@@ -123,18 +149,19 @@ RaiseWalk == /\ Running /\ mode = "walk" /\ Top.ph = "Vpost" /\ Top.k > Len(Post
 \* ---- children loop (visitor.py:126-130, 187-192)
 KidsStep == /\ Running /\ Top.ph = "Kids"
             /\ IF Top.k <= Len(Kids(Top.node))
-                 THEN stack' = Append([stack EXCEPT ![Len(stack)] = [Top EXCEPT !.k = @ + 1]], Frame(Kids(Top.node)[Top.k]))
+                 THEN stack' = Append([stack EXCEPT ![Len(stack)] = [Top EXCEPT !.k = @ + 1]], Frame(Kids(Top.node)[Top.k], Top.mode, FALSE))
                       /\ UNCHANGED exc
-                 ELSE IF mode = "walkabout"
+                 ELSE IF Top.mode = "walkabout"
                         THEN SetTop([Top EXCEPT !.ph = "Dpre", !.k = 1]) /\ UNCHANGED exc
                         \* walk: the frame returns; a remembered SkipSiblings is re-raised to the parent's loop
-                        ELSE Pop /\ exc' = IF Top.pruning = "SkipSiblings" THEN "SkipSiblings" ELSE "none"
+                        \* (the root of an inner traversal has no siblings: its walk() swallows the exception)
+                        ELSE Pop /\ exc' = IF Top.pruning = "SkipSiblings" /\ ~Top.nroot THEN "SkipSiblings" ELSE "none"
             /\ UNCHANGED <<events, status>>
 \* `except self.SkipSiblings: pass` in the PARENT's loop over children: the remaining children are skipped
 CatchSiblings == /\ status = "running" /\ exc = "SkipSiblings" /\ Len(stack) > 0
-                 /\ IF mode = "walkabout"
+                 /\ IF Top.mode = "walkabout"
                       THEN SetTop([Top EXCEPT !.ph = "Dpre", !.k = 1]) /\ exc' = "none"
-                      ELSE Pop /\ exc' = IF Top.pruning = "SkipSiblings" THEN "SkipSiblings" ELSE "none"
+                      ELSE Pop /\ exc' = IF Top.pruning = "SkipSiblings" /\ ~Top.nroot THEN "SkipSiblings" ELSE "none"
                  /\ UNCHANGED <<events, status>>
 \* the root has no siblings: the top-level call swallows the exception
 SwallowAtRoot == /\ status = "running" /\ exc # "none" /\ Len(stack) = 0
@@ -149,24 +176,27 @@ DepartPre == /\ Running /\ Top.ph = "Dpre"
 \* super().depart(ob): a pruning exception raised by depart_* is remembered until the remaining extensions have left
 DepartMain == /\ Running /\ Top.ph = "Dmain"
               /\ IF Top.callDepart THEN Emit("main", "depart", Top.node) ELSE UNCHANGED events
-              /\ IF Top.callDepart /\ prune[Top.node] \in DepartErrors
+              /\ IF Top.callDepart /\ PruneOf(Top.node) \in DepartErrors
                    THEN \* a genuine error is not a pruning exception: nothing catches it, the traversal is abandoned
                         status' = "failed" /\ UNCHANGED <<stack, exc>>
-                   ELSE /\ SetTop([Top EXCEPT !.ph = "Dpost", !.k = 1,
-                                         !.pruning = IF Top.callDepart /\ prune[Top.node] = "DepartSkipSiblings" THEN "SkipSiblings" ELSE @])
+                   ELSE /\ LET cont == [Top EXCEPT !.ph = "Dpost", !.k = 1,
+                                         !.pruning = IF Top.callDepart /\ PruneOf(Top.node) = "DepartSkipSiblings" THEN "SkipSiblings" ELSE @] IN
+                             IF Top.callDepart /\ nest.at = Top.node /\ nest.when = "depart"      \* depart_* starts an inner traversal
+                               THEN stack' = Append([stack EXCEPT ![Len(stack)] = cont], Frame(n + 1, nest.how, TRUE))
+                               ELSE SetTop(cont)
                         /\ UNCHANGED <<exc, status>>
 DepartPost == /\ Running /\ Top.ph = "Dpost"
               /\ IF Top.k <= Len(PostD)
                    THEN Emit(PostD[Top.k], "depart", Top.node) /\ SetTop([Top EXCEPT !.k = @ + 1]) /\ UNCHANGED exc
                    ELSE UNCHANGED events /\ Pop
-                        /\ exc' = IF Top.pruning = "SkipSiblings" THEN "SkipSiblings" ELSE "none"
+                        /\ exc' = IF Top.pruning = "SkipSiblings" /\ ~Top.nroot THEN "SkipSiblings" ELSE "none"
               /\ UNCHANGED status
 Finish == /\ status = "running" /\ exc = "none" /\ Len(stack) = 0
           /\ status' = "done" /\ UNCHANGED <<stack, exc, events>>
 
 Next == /\ (VisitPre \/ VisitMain \/ VisitPostExt \/ RaiseAbout \/ RaiseWalk \/ KidsStep \/ CatchSiblings
             \/ SwallowAtRoot \/ DepartPre \/ DepartMain \/ DepartPost \/ Finish)
-        /\ UNCHANGED <<cid, n, parent, prune, exts, mode, hist>>
+        /\ UNCHANGED <<cid, n, parent, prune, exts, mode, hist, nest>>
 Spec == Init /\ [][Next]_vars
 
 \* ------------------------------------------------------------------ the contract (property C19)
@@ -193,7 +223,7 @@ MainBalanced == (Completed /\ mode = "walkabout") => \A x \in 1..n :
                     /\ (Seen("main", "visit", x) /\ prune[x] \in {"SkipNode", "SkipDeparture"}) => ~Seen("main", "depart", x)
                     /\ Seen("main", "depart", x) => Seen("main", "visit", x)
 \* walk: nobody departs
-WalkNoDepart == mode = "walk" => \A i \in 1..Len(events) : events[i][2] = "visit"
+WalkNoDepart == mode = "walk" => \A i \in 1..Len(events) : events[i][3] <= n => events[i][2] = "visit"
 \* enter / leave calls nest like the tree: a node's calls lie between its parent's visit and depart
 WellNested == (Completed /\ mode = "walkabout") => \A w \in Whos, x \in 2..n :
                  Seen(w, "visit", x) =>
@@ -222,12 +252,24 @@ PruningMeans == Completed => \A x \in 1..n : Seen("main", "visit", x) <=> Visite
 
 \* an abandoned traversal (a genuine error raised by depart_*) owes nothing but the error itself: ErrorsSurface
 ErrorsSurface == Terminal => ((\E x \in 1..n : prune[x] \in DepartErrors /\ Seen("main", "depart", x)) <=> status = "failed")
+\* A traversal started from inside a visit_* / depart_* method is a traversal of its own: everybody enters its root once
+\* (and leaves it, in a walkabout, the main visitor unless it asked not to), all of it between the call that started it and
+\* whatever comes next - and what its root raises stays there: PruningMeans above does not mention it.
+NestedRan == nest.at # 0 /\ Seen("main", nest.when, nest.at)
+NestedContract == (nest.at # 0 /\ Completed) =>
+   LET N == n + 1
+       mine == {i \in 1..Len(events) : events[i][3] = N}
+   IN /\ \A w \in Whos : Cardinality(Idx(w, "visit", N)) = (IF NestedRan THEN 1 ELSE 0)
+      /\ \A e \in exts : Cardinality(Idx(e, "depart", N)) = (IF NestedRan /\ nest.how = "walkabout" THEN 1 ELSE 0)
+      /\ Cardinality(Idx("main", "depart", N)) = (IF NestedRan /\ nest.how = "walkabout" /\ nest.prune \notin {"SkipNode", "SkipDeparture"} THEN 1 ELSE 0)
+      /\ NestedRan => \A i \in mine : /\ i > Pos("main", nest.when, nest.at)
+                                       /\ \A j \in (Pos("main", nest.when, nest.at) + 1)..i : j \in mine       \* one contiguous block
 Contract == ErrorsSurface /\ (status = "failed" \/
             /\ EnteredAtMostOnce /\ NoEscape /\ ExtBalanced /\ MainBalanced /\ WalkNoDepart
-            /\ WellNested /\ DocumentedOrder /\ SameNodesForAll /\ PruningMeans)
+            /\ WellNested /\ DocumentedOrder /\ SameNodesForAll /\ PruningMeans /\ NestedContract)
 
 \* ------------------------------------------------------------------ emission (spec -> code)
-Cfg == [cid |-> cid, n |-> n, parent |-> parent, prune |-> prune, mode |-> mode, hist |-> hist,
+Cfg == [cid |-> cid, n |-> n, parent |-> parent, prune |-> prune, mode |-> mode, hist |-> hist, nest |-> nest,
         exts |-> Sel("BEFORE") \o Sel("AFTER") \o Sel("INNER") \o Sel("OUTTER")]
 EmitTerminal == Terminal => PrintT(ToJson([cfg |-> Cfg, status |-> status, events |-> events, contract |-> Contract]))
 =============================================================================
